@@ -199,6 +199,12 @@ func intersect[T constraints.Integer](intv Interval[T], inters []Interval[T]) ([
 		begin := max(intv.Begin(), inter.Begin())
 		end := min(intv.End(), inter.End())
 		intvs = append(intvs, New(begin, end))
+
+		// inter reaches behind intv, so it can intersect following
+		// intervals as well and must not be skipped.
+		if inter.End() >= intv.End() {
+			return intvs, cnt - 1
+		}
 	}
 
 	return intvs, cnt - 1
